@@ -868,6 +868,14 @@ where
             // ── HORNER_ACC ───────────────────────────────────────────────
             let next_sel_horner = prep_n.sel_horner;
 
+            // A chain starts after a separator: an inactive row (all selectors and
+            // multiplicities zero) whose `out` is the chain's initial accumulator. No other
+            // constraint mentions the cells of an inactive row, so pin that accumulator to zero.
+            let inactive = AB::Expr::ONE + mult_a;
+            for i in 0..D {
+                builder.assert_zero(next_sel_horner * inactive.dup() * out[i]);
+            }
+
             let next_a = &lane_next.a;
             let next_b = &lane_next.b;
             let next_c = &lane_next.c;
